@@ -192,6 +192,7 @@ def run(ctx):
                                 ok = same_cell(got, exp)
                             kind = info.kind[name]
                             ctx.count("cells.compared")
+                            ctx.count("evaluations")
                             ctx.count(f"cells.{kind}")
                             vc = value_class(exp)
                             if not (kind == "integer" and vc == "ordinary" and name in dict(gen.HEADER)):
